@@ -674,14 +674,23 @@ class CSSStyleSheet(cssutils.stylesheets.StyleSheet):
 
         elif isinstance(rule, cssutils.css.CSSRuleList):
             # insert all rules or none
-            done = []
+            before = list(self._cssRules)
+            links = [
+                (r, r._parentStyleSheet, r._parentRule, getattr(r, '_parent', None))
+                for r in before + list(rule)
+            ]
             try:
                 for i, r in enumerate(rule):
                     self.insertRule(r, index + i)
-                    done.append(r)
             except xml.dom.DOMException:
-                for r in reversed(done):
-                    self.deleteRule(r)
+                # the list as it was (an inserted rule may have replaced one)
+                del self._cssRules[:]
+                for i, r in enumerate(before):
+                    self._cssRules.insert(i, r)
+                for r, sheet, parentrule, parent in links:
+                    r._parentStyleSheet, r._parentRule = sheet, parentrule
+                    r._parent = parent
+                self._updateVariables()
                 raise
             return index
 
